@@ -664,6 +664,13 @@ func (o *operation) resolveMethod(transcoder *Transcoder) error {
 	if o.client.protocol.protocol() == ProtocolREST {
 		// Match the still-encoded path, so that captured values are unescaped exactly once.
 		uriPath = o.request.URL.EscapedPath()
+		if raw := o.request.URL.RawPath; raw != "" && raw != uriPath {
+			// EscapedPath discards the original encoding (and with it every escaped slash)
+			// when the path has a byte that it would have escaped, such as '|' or raw UTF-8.
+			if unescaped, err := url.PathUnescape(raw); err == nil && unescaped == o.request.URL.Path {
+				uriPath = raw
+			}
+		}
 		var methods routeMethods
 		o.restTarget, o.restVars, methods = transcoder.restRoutes.match(uriPath, o.request.Method)
 		if o.restTarget != nil {
